@@ -36,4 +36,8 @@ MatchesDef == pc = "done" /\ Dom => \A i \in 1..n : out[i][2] > 0 /\ IsCalibrate
 ErrorIffNoAccepted == (pc = "failed" => ~FI.hasAcc) /\ (pc = "done" => FI.hasAcc)
 EmitCase == pc = "labels" => PrintT(<<"CASE", n, raw, tgt, thr>>)
 GenOnly == pc = "labels"
+\* ---- liveness (checked by Calib_live.cfg): under weak fairness of the next-state action every behaviour comes to rest
+\* in a state without successor -- the modelled procedure terminates for every input, schedule and fault inside the bounds
+FairSpec == Spec /\ WF_vars(Next)
+Halts == <>[](~ENABLED Next)
 =============================================================================
